@@ -68,6 +68,9 @@ func c05J5(r *core.R) {
 	c03Init(r)
 	pk := c03OsmPkg(r.P)
 
+	// (g) strings written by hand (also tells whether Tags writes its object by hand)
+	tagsByHand := c05HandStrings(r)
+
 	// (a) Tags -> map[string]string
 	if o := c05ObserveMarshal(r, "Tags", triF, "tags set"); o != nil {
 		c := "shape@Tags.MarshalJSON"
@@ -79,6 +82,10 @@ func c05J5(r *core.R) {
 		switch {
 		case o.x.Aborted != "":
 			r.Unknown(c, o.fi.Decl.Pos(), "Tags.MarshalJSON could not be explored completely: %s", o.x.Aborted)
+		case len(ops) == 0 && tagsByHand == "ok":
+			r.OK(c, o.fi.Decl.Pos(), "writes the JSON object by hand: the output is delimited by { and } and every key and value is encoded by a codec marshal operation on the string (see strings@Tags.MarshalJSON); separators are not decided")
+		case len(ops) == 0 && tagsByHand == "bad":
+			r.Bad(c, o.fi.Decl.Pos(), "Tags.MarshalJSON no longer marshals a map[string]string and what it writes by hand is not a JSON object of codec-encoded key/value strings (see strings@Tags.MarshalJSON)")
 		case len(ops) == 0:
 			r.Unknown(c, o.fi.Decl.Pos(), "expected exactly one marshal operation on every path of Tags.MarshalJSON")
 		default:
@@ -172,6 +179,9 @@ func c05J5(r *core.R) {
 	// (e) osmjson key names
 	c05Keys(r)
 
+	// (h) unknown keys are tolerated
+	c05UnknownKeys(r)
+
 	// (f) codec routing
 	c05Routing(r, c05Helpers(r.P))
 }
@@ -196,10 +206,10 @@ func c05EmptyValue(r *core.R, typeName, lit, why string) {
 			got = "a path that ends with " + pa.End
 		case len(o.cx.ops(pa)) > 0:
 			got = "the result of marshalling the empty value through the codec"
-		case pa.Ret[0].K != c03KStr:
+		case !c05IsBytesConst(pa.Ret[0]):
 			got = "<" + pa.Ret[0].String() + ">"
-		case pa.Ret[0].Str != lit:
-			got = pa.Ret[0].Str
+		case c05BytesText(pa.Ret[0]) != lit:
+			got = c05BytesText(pa.Ret[0])
 		default:
 			pos = pa.Pos
 			continue
@@ -209,3 +219,7 @@ func c05EmptyValue(r *core.R, typeName, lit, why string) {
 	}
 	r.OK(c, pos, "for the empty value every path returns the literal `%s`", lit)
 }
+
+func c05IsBytesConst(v *c03V) bool { _, ok := c03BytesConst(v); return ok }
+
+func c05BytesText(v *c03V) string { s, _ := c03BytesConst(v); return s }
